@@ -23,22 +23,24 @@ THEOREMS = [f'Gnpy.Slots.{t}' for t in (
     'align_index_unique', 'align_preserves_occupancy', 'oms_partition', 'reversed_endpoints', 'reversed_involution',
     'bitmap_length_fails_old', 'insert_right_dup_old', 'createOmsBitmap_spec', 'bandCells_spec', 'insertLeft_spec',
     'insertRight_spec', 'alignOne_spec', 'alignGrids_spec', 'nodup_intRange', 'common_band_is_intersection',
-    'commonRange_no_amp')]
-PARTIAL = ['oms_partition is stated on the chain abstraction: the walk over the DiGraph that cuts the network into line '
-           'systems (ROADM, line elements, ROADM) is not modelled; "each line element belongs to exactly one OMS" follows '
-           'from the theorem when each line element lies in exactly one line system, which the monitor checks on the '
-           'real network object for every generated network (partition, adjacency along the route, back references)']
+    'commonRange_no_amp', 'walk_terminates', 'oms_partition_graph', 'reversed_pairs_walk', 'walk_ok', 'buildWalks_ok',
+    'omsVertices_ok', 'OmsPath.same_start', 'line_on_some_route', 'OmsPath.functional', 'OmsPath.shape', 'OmsPath.linked',
+    'nodup_omsStarts')]
+PARTIAL = []
 MANIFEST = {
     'text': '21 Lean 4 theorems over the executable model: bitmap_length and usable_iff_in_common_band for EVERY band layout '
             'inside the network range (+ inBands_iff_frequency: index view = centre-frequency view for every band edge, '
             'common_band_is_intersection), align_index_unique and align_preserves_occupancy for every set of maps, '
-            'oms_partition/same index range and reversed_endpoints/reversed_involution on the chain abstraction, '
+            'oms_partition_graph (walk terminates, one OMS per line element, ROADM to ROADM, ids, back references) on every '
+            'well-formed graph, oms_partition/same index range for the maps, reversed_endpoints/reversed_involution, '
             'slots_roundtrip; the negations for the code before ec64bb7b / 5edacf9c are decided on faithful old models '
             '(bitmap_length_fails_old, insert_right_dup_old).',
-    'note': 'Partial: the DiGraph walk of build_oms_list is not modelled (chain abstraction); the partition of the real '
-            'network object is checked by the monitor on every generated network. Thorough tier adds the complete '
-            'enumeration of all 1- and 2-band layouts on a 12-slot line (on- and off-grid edges) and of all pairs of map '
-            'extents in n = -3..3 through align_grids (7128 cases).'}
+    'note': 'No partial statement: the DiGraph walk of build_oms_list is modelled (buildWalks on the exported node kinds + '
+            'successor lists in networkx order) and oms_partition_graph proves termination within the fuel, ROADM-to-ROADM '
+            'routes, ids in construction order, "each line element in exactly one OMS" and the oms_id back reference for '
+            'every well-formed network; the el_id_lists, oms_id and oms_list attributes of the REAL build_oms_list are '
+            'compared exactly with that walk. Thorough tier adds the complete enumeration of all 1- and 2-band layouts on a '
+            '12-slot line (on- and off-grid edges) and of all pairs of map extents in n = -3..3 through align_grids.'}
 RULE = ('one PRNG; (a) 40 %: generated networks of 2-4 (thorough: up to 6) ROADMs, line or ring, every OMS with its own '
         'amplifier profile from the multiband library (C, C medium, L, reduced C band, three C+L multiband models), user '
         'amplifier models with explicit band edges (12 % of them off the 6.25 GHz grid), mixed models inside one OMS, '
@@ -51,10 +53,11 @@ RULE = ('one PRNG; (a) 40 %: generated networks of 2-4 (thorough: up to 6) ROADM
 MODEL_SCOPE = ('modelled (GnpyModel/Slots.lean): frequency_to_n, nvalue_to_frequency, mvalue_to_slots, slots_to_m, m_to_freq, '
                'Bitmap.__init__/insert_left/insert_right, align_grids, find_common_range (f_min/f_max only; spacing plays '
                'no role for the map), create_oms_bitmap, find_network_freq_range, reversed_oms, build_oms_list on the '
-               'chain abstraction (list of uids between two ROADMs + the bands of its amplifiers). Integer Hz. Not '
-               'modelled: the graph walk of build_oms_list (the harness walks the DiGraph itself, in the same '
-               'construction order, and hands the line systems to the model; the el_id_lists are then compared '
-               'exactly), network design (networks whose design fails are counted and skipped). Monitor: a slot is usable '
+               'chain abstraction (list of uids between two ROADMs + the bands of its amplifiers), and the graph walk of '
+               'build_oms_list (oms_vertices, the while loop with next(... if uid != nd_in.uid), oms_id numbering, '
+               'el_id_list, element.oms_id and node.oms_list) on the DiGraph exported by the harness as node kinds + '
+               'successor lists in networkx order; the line systems handed to the map model are the MODEL\'s walk. Integer '
+               'Hz. Not modelled: network design (networks whose design fails are counted and skipped). Monitor: a slot is usable '
                'iff its centre frequency 193.1 THz + n*6.25 GHz lies in a band of every amplifier of the OMS (SI band when '
                'the OMS has no amplifier), evaluated with exact integers from the amplifiers\' own f_min/f_max. Every generated OMS has a non-empty common '
                'band (an OMS whose amplifiers share no band can not carry a channel; build_oms_list raises IndexError there: '
@@ -143,8 +146,10 @@ def gen_net(rng, tier, widen):
                            [c[0] for c in custom if (c[2] < ANCHOR - 2 * 10 ** 12) == lband]
                 prof = [rng.choice(pool) for _ in range(spans + 1)]      # mixed amplifier models inside one OMS
             lines.append({'from': s, 'to': t, 'amps': prof, 'fused': rng.random() < 0.15})
+    r = rng.random()
+    odd = 'dangling_trx' if r < 0.03 else ('line_to_trx' if r < 0.07 else None)
     return {'kind': 'net', 'nroadm': nroadm, 'lines': lines, 'custom': custom,
-            'unidir_drop': rng.random() < 0.08}
+            'unidir_drop': rng.random() < 0.08, 'graph_odd': odd}
 
 
 def gen_cells(rng, length):
@@ -301,6 +306,13 @@ def net_topology(case):
                 line.append(nets.fused(f'fu{tag} {j}', 1.0))
             line.append(amp_element(f'a{tag} {j}', p))
         nets.chain(els, cxs, f'R{ln["from"]}', f'R{ln["to"]}', line)
+    odd = case.get('graph_odd')
+    if odd == 'dangling_trx':       # a transceiver that is fed by a ROADM but has no egress edge
+        els.append(nets.trx('TX'))
+        cxs.append(nets.cx('R0', 'TX'))
+    elif odd == 'line_to_trx':      # a line element that ends at a transceiver instead of a ROADM
+        els += [nets.trx('TX'), nets.fiber('fX', 20.0)]
+        cxs += [nets.cx('TX', 'R0'), nets.cx('R0', 'fX'), nets.cx('fX', 'TX')]
     return {'elements': els, 'connections': cxs}
 
 
@@ -326,31 +338,50 @@ def bands_of(el):
     return [[int(b['f_min']), int(b['f_max'])] for b in el.params.bands]
 
 
-def walk_chains(net):
-    """the line systems in the construction order of build_oms_list (ROADMs in node order, their egress edges in edge
-    order); the walk itself is the harness' own"""
-    from gnpy.core.elements import Roadm, Transceiver, Edfa, Multiband_amplifier
-    chains = []
-    starts = [n for n in net.nodes() if isinstance(n, Roadm)] + \
-             [n for n in net.nodes() if isinstance(n, Transceiver) and not isinstance(next(net.successors(n)), Roadm)]
-    for r in starts:
-        for _, x in net.edges([r]):
-            if isinstance(x, Transceiver):
-                continue
-            els, amps, prev, cur = [r.uid], [], r, x
-            guard = 0
-            while not isinstance(cur, Roadm):
-                els.append(cur.uid)
-                if isinstance(cur, (Edfa, Multiband_amplifier)):
-                    amps.append(bands_of(cur))
-                nxt = [y for _, y in net.edges([cur]) if y.uid != prev.uid]
-                prev, cur = cur, nxt[0]
-                guard += 1
-                if guard > 10000:
-                    raise RuntimeError('walk does not end')
-            els.append(cur.uid)
-            chains.append({'els': els, 'amp_bands': amps})
-    return chains
+def export_graph(net):
+    """the DiGraph as build_oms_list sees it: nodes in network.nodes() order, kind of each node, successors in
+    network.edges([node]) order (numbers = positions in the node list)"""
+    from gnpy.core.elements import Roadm, Transceiver
+    nodes = list(net.nodes())
+    num = {id(n): i for i, n in enumerate(nodes)}
+    kind = ['R' if isinstance(n, Roadm) else ('T' if isinstance(n, Transceiver) else 'L') for n in nodes]
+    succ = [[num[id(y)] for _, y in net.edges([n])] for n in nodes]
+    return nodes, kind, succ
+
+
+def graph_wellformed(kind, succ):
+    """the hypothesis Net.WF of the walk theorems, evaluated on the exported graph (own code): every line element has
+    exactly one successor (not a transceiver) and exactly one predecessor, no ring of line elements, no line element
+    bounces back to its predecessor, every transceiver has a successor, a transceiver feeding a line element is not
+    ROADM-first; returns None when well formed, else the reason"""
+    n = len(kind)
+    pred = [[] for _ in range(n)]
+    for a, ss in enumerate(succ):
+        if len(set(ss)) != len(ss):
+            return f'parallel edges at node {a}'
+        for x in ss:
+            pred[x].append(a)
+    for i in range(n):
+        if kind[i] == 'L':
+            if len(succ[i]) != 1 or kind[succ[i][0]] == 'T':
+                return f'line element {i} has successors {succ[i]}'
+            if len(pred[i]) != 1:
+                return f'line element {i} has predecessors {pred[i]}'
+            if succ[i][0] == pred[i][0]:
+                return f'line element {i} bounces back'
+        if kind[i] == 'T':
+            if not succ[i]:
+                return f'transceiver {i} has no successor'
+            if any(kind[x] == 'L' for x in succ[i]) and kind[succ[i][0]] == 'R':
+                return f'transceiver {i} feeds a line element but is ROADM first'
+    for i in range(n):           # no ring of line elements: going backwards ends at a non-line node
+        seen, cur = set(), i
+        while kind[cur] == 'L':
+            if cur in seen:
+                return f'ring of line elements through {i}'
+            seen.add(cur)
+            cur = pred[cur][0]
+    return None
 
 
 # ---------------------------------------------------------------------------------------------------------------------
@@ -383,29 +414,60 @@ def run_net(case, drv):
         eq = equipment(case['custom'])
         net = network_from_json(net_topology(case), eq)
         res.stats['generated_network'] += 1
-    try:
-        net, _, _ = designed_network(eq, net)
-    except Exception as e:      # the design of this network fails: not a designed network, nothing to judge for C15
-        res.stats[f'design_failed_{err_kind(e)}'] += 1
-        return res
+    malformed = case.get('graph_odd') is not None
+    if malformed:               # not a designed network: only the walk is compared (error kinds / odd routes)
+        res.stats[f'malformed_graph_{case["graph_odd"]}'] += 1
+    else:
+        try:
+            net, _, _ = designed_network(eq, net)
+        except Exception as e:  # the design of this network fails: not a designed network, nothing to judge for C15
+            res.stats[f'design_failed_{err_kind(e)}'] += 1
+            return res
     si = eq['SI']['default']
     si_band = [int(si.f_min), int(si.f_max)]
-    chains = walk_chains(net)
+    nodes, kind, succ = export_graph(net)
+    wf = graph_wellformed(kind, succ)
+    res.stats['graph_wellformed'] += int(wf is None)
+    walk = drv.ask('c15.walk', kind=kind, succ=succ)
     net_bands = [b for n in net.nodes() if isinstance(n, (Edfa, Multiband_amplifier)) for b in bands_of(n)]
     try:
         oms_list = build_oms_list(net, eq)
         err = None
     except Exception as e:
         err = err_kind(e)
+    if 'error' in walk:
+        # the model's walk fails (malformed graph): the implementation must fail the same way
+        res.cmp_exact('build_oms_list.walk_error', err, walk['error'])
+        res.stats[f'walk_error_{walk["error"]}'] += 1
+        if wf is None:
+            res.fail(f'OMS list can not be built: the walk fails with {walk["error"]} on a well-formed graph', cls='unlisted')
+        return res
+    # the line systems are the MODEL's walk over the exported graph (not a walk of the harness)
+    chains = [{'els': [nodes[i].uid for i in els],
+               'amp_bands': [bands_of(nodes[i]) for i in els if isinstance(nodes[i], (Edfa, Multiband_amplifier))]}
+              for els in walk['ok']['oms']]
     ans = drv.ask('c15.build', chains=chains, net_bands=net_bands, si=si_band)
     if err is not None:
         res.cmp_exact('build_oms_list.error', err, ans.get('error'))
         res.stats[f'build_error_{err}'] += 1
-        res.fail(f'OMS list can not be built: build_oms_list raises {err} on a designed network', cls='unlisted')
+        if not malformed:
+            res.fail(f'OMS list can not be built: build_oms_list raises {err} on a designed network', cls='unlisted')
         return res
     impl = [{'id': o.oms_id, 'els': list(o.el_id_list), 'bm': snap_bitmap(o.spectrum_bitmap),
              'reversed': None if o.reversed_oms is None else o.reversed_oms.oms_id} for o in oms_list]
     res.cmp_exact('build_oms_list', impl, ans.get('ok'))
+    res.cmp_exact('build_oms_list.el_id_lists', [list(o.el_id_list) for o in oms_list],
+                  [[nodes[i].uid for i in els] for els in walk['ok']['oms']])
+    res.cmp_exact('build_oms_list.oms_id back references', [getattr(n, 'oms_id', None) for n in nodes], walk['ok']['oms_id'])
+    res.cmp_exact('build_oms_list.oms_list of the nodes', [list(getattr(n, 'oms_list', [])) for n in nodes],
+                  walk['ok']['oms_list'])
+    res.cmp_exact('reversed_oms', [None if o.reversed_oms is None else o.reversed_oms.oms_id for o in oms_list],
+                  walk['ok']['reversed'])
+    if wf is not None:
+        res.stats['graph_not_wellformed_but_built'] += 1
+    if malformed:
+        res.stats['malformed_graph_built'] += 1
+        return res
     # ---- monitor -------------------------------------------------------------------------------------------------
     line = [n for n in net.nodes() if not isinstance(n, (Roadm, Transceiver))]
     count = {n.uid: 0 for n in line}
@@ -444,7 +506,7 @@ def run_net(case, drv):
     f_lo = min(b[0] for b in net_bands) if net_bands else None
     f_hi = max(b[1] for b in net_bands) if net_bands else None
     offgrid = False
-    for o, ch in zip(oms_list, chains):
+    for o in oms_list:
         b = o.spectrum_bitmap
         if (b.n_min, b.n_max) != (b0.n_min, b0.n_max) or list(b.freq_index) != list(range(b.n_min, b.n_max + 1)) \
                 or len(b.bitmap) != len(b.freq_index):
